@@ -253,7 +253,9 @@ theorem exec_inv {st : St} (h : Inv st) (i : Instr) : Inv (exec st i) := by
     have sv2 : SymsValid (addSym (addSym (st.T ++ [({ parent := some st.cur } : Scope)]) st.cur n (.scope st.T.length)) st.cur n (.ty st.nextId)) :=
       symsValid_addSym (symsValid_addSym sv1 _ _ _ (by intro idx h; cases h; simp)) _ _ _ (by intro idx h; cases h)
     obtain ⟨a, b, c⟩ := registerVals_inv wf2 sv2 st.cur st.T.length vals (st.nextId + 1)
-    exact ⟨a, by rw [c]; simp [addSym_length]; omega, b⟩
+    split
+    · exact ⟨wf, hc, sv⟩
+    · exact ⟨a, by rw [c]; simp [addSym_length]; omega, b⟩
   | td n p =>
     simp only [exec]
     split
